@@ -35,6 +35,7 @@ RULE += ' Bookkeeping calls between requests (clear_cache, get_statistics).'
 RULE += ' `slow` cases: the loop is built with timeout_seconds = 5 ms and some agent calls take 20 ms of real time - whatever the loop does about a slow agent, each request is judged by the verdicts its own agents gave for it. Agents also raise exceptions that carry no message.'
 RULE += " Round 7: the stub agents' payload is, per case, their name (as before) or one of empty string / None / 0 / False / [] / {} / a structure / 5000 characters; the 6x7x7 table is enumerated again with empty, None, 0 and [] payloads."
 RULE += ' Round 7: a `decoy` (pbt/props/_decoys.py): a second object of the class, differently configured and put through a misleading script (same prompts / names / ids, opposite verdicts and limits), is built in the same process after the object under test.'
+RULE += " Round 8: `@logic` pseudo-requests assign another gate logic to the loop's public `gate_logic` attribute between requests (cache cleared with it); all ordered pairs of logics are enumerated with a request before and after the change."
 EXHAUSTIVE_NOTE = {"quick": "6x7x7 verdict table x (4 prompts x cache on/off + 3 confidence corners) = 3234 cells, complete",
                    "thorough": "6x7x7 verdict table x (4 prompts x cache on/off + 3 confidence corners) = 3234 cells, complete"}
 
@@ -50,7 +51,9 @@ _req = st.one_of(st.tuples(_prompt, st.sampled_from(_ALLK), st.sampled_from(_ALL
                  st.tuples(_prompt, st.sampled_from(_ALLK), st.sampled_from(_ALLK + ["PERMIT", "PERMIT", "BLOCK"]), _conf, _conf),
                  st.tuples(_prompt, st.sampled_from(_ALLK), st.sampled_from(_ALLK + ["PERMIT", "PERMIT", "BLOCK"]), _conf, _conf),
                  st.tuples(_prompt, st.sampled_from(_ALLK), st.sampled_from(_ALLK + ["PERMIT", "PERMIT", "BLOCK"]), _conf, _conf),
-                 st.tuples(st.sampled_from(["@clear_cache", "@get_statistics"]), st.just("EXECUTE"), st.just("PERMIT"))).map(list)
+                 st.tuples(st.sampled_from(["@clear_cache", "@get_statistics"]), st.just("EXECUTE"), st.just("PERMIT")),
+                 # the loop is re-configured between requests through its public attribute: from then on the new gate logic is "the configured gate logic"
+                 st.tuples(st.just("@logic"), st.sampled_from(LOGICS), st.just("PERMIT"))).map(list)
 
 
 def strategy(tier):
@@ -81,6 +84,11 @@ def enumerate_cases(tier):
         for bulk in (999, 1000, 1001):
             yield {"logic": logic, "cache": True, "bulk": bulk,
                    "reqs": [["bulk-0", "BLOCK", "BLOCK"], ["bulk-1", "BLOCK", "BLOCK"], ["bulk-1000", "EXECUTE", "BLOCK"], ["bulk-0", "EXECUTE", "PERMIT"], ["bulk-500", "BLOCK", "PERMIT"]]}
+    for l1, l2 in itertools.product(LOGICS, LOGICS):
+        if l1 != l2:
+            for e, a in itertools.product(["EXECUTE", "BLOCK", "FAILURE", "DEFER"], ["PERMIT", "BLOCK", "DEFER"]):
+                yield {"logic": l1, "cache": True, "reqs": [["first", "EXECUTE", "PERMIT"], ["@logic", l2, "PERMIT"], ["second", e, a]]}
+            yield {"logic": l1, "cache": False, "reqs": [["@logic", l2, "PERMIT"], ["only", "EXECUTE", "BLOCK"], ["only", "BLOCK", "PERMIT"], ["only", "FAILURE", "PERMIT"]]}
     for logic, u in itertools.product(LOGICS, UNKNOWN_KINDS):
         for other in ("EXECUTE", "PERMIT", "BLOCK", "FAILURE"):
             for cache in (False, True):
@@ -123,6 +131,17 @@ def judge(case):
         out.label("bulk")
     for i, req in enumerate([["bulk-%d" % k, "EXECUTE", "PERMIT"] for k in range(bulk)] + case["reqs"]):
         prompt, e, a = req[:3]
+        if prompt == "@logic":
+            from operon_ai.topology.loops import GateLogic
+            loop.gate_logic = getattr(GateLogic, e)
+            logic = e
+            # replies cached under the previous configuration are no longer "the original" of anything asked under this one
+            stored.clear()
+            last_pair.clear()
+            loop.clear_cache()
+            out.label("logic-reassigned")
+            out.nontrivial = True
+            continue
         if prompt in ("@clear_cache", "@get_statistics"):
             getattr(loop, prompt[1:])()          # bookkeeping between requests: verdicts, tokens and cached replies must not depend on it
             if prompt == "@clear_cache":
